@@ -37,9 +37,9 @@ NS = importlib.import_module('pyglove.ext.evolution.nsga2')
 
 TIERS = {
     'quick': dict(shards=8, cases=20, apps=14, kpoint_extra=3, max_pop=8,
-                  algos=0.2, timeout_s=600),
+                  algos=0.2, timeout_s=900, case_timeout_s=600),
     'thorough': dict(shards=16, cases=230, apps=20, kpoint_extra=3, max_pop=12,
-                     algos=0.3, timeout_s=5400, case_timeout_s=300),
+                     algos=0.3, timeout_s=5400, case_timeout_s=900),
 }
 RULE = ('case = one random search space (gen/spaces.random_space with floats, '
         'custom points, names, literals, conditional multi-choices, plus '
@@ -593,6 +593,8 @@ def snapshot(d):
   return {
       'decisions': repr([n.value for n in nodes]) + repr([len(n.children) for n in nodes]),
       'binding': [id(n.spec) for n in nodes],
+      'tree-position': (id(d.sym_parent) if d.sym_parent is not None else None,
+                        str(d.sym_path)),
       'metadata': (json.dumps(compact, sort_keys=True, default=repr)
                    + repr([n.metadata.to_json() if len(n.metadata) else 0
                            for n in nodes[1:]])),
@@ -601,7 +603,7 @@ def snapshot(d):
 
 
 def snapshot_diff(before, after):
-  for part in ('decisions', 'binding', 'metadata', 'userdata'):
+  for part in ('decisions', 'binding', 'tree-position', 'metadata', 'userdata'):
     if before[part] != after[part]:
       return part
   return None
@@ -758,9 +760,12 @@ def leaf_precondition(env, node, inputs, step):
     w = MUT_WHERE[node['where']] if node['where'] is not None else None
     kinds = (pg.geno.Choices, pg.geno.Float, pg.geno.CustomDecisionPoint)
     for x in inputs:
-      if not any(isinstance(n.spec, kinds) and (w is None or w(n))
-                 for n in dna_nodes(x)):
-        return 'needs a mutable node'
+      try:
+        if not any(isinstance(n.spec, kinds) and (w is None or w(n))
+                   for n in dna_nodes(x)):
+          return 'needs a mutable node'
+      except Exception:  # pylint: disable=broad-except
+        return 'where is not defined on this input'
   return None
 
 
@@ -916,13 +921,13 @@ class Run:
                     f'before {before[changed]!r:.600}, after '
                     f'{snapshot(x)[changed]!r:.600}')
           env.dirty = True
-          changed = None
-          break
+          raise Abort()             # the population is rebuilt by the caller
     if changed:
       self.fail('input-modified', f'{name}:{changed}',
                 f'{show(node)} changed the list it was given '
                 f'({len(in_ids)} -> {len(now_ids)} items)')
       env.dirty = True
+      raise Abort()
     if self.stack:
       for x in flatten(out):
         self.stack[-1]['kids'][id(x)] = x
@@ -1437,7 +1442,8 @@ def gen_application(rng, env, which):
   depth = rng.choice([1, 1, 2, 2, 3, 3, 4])
   if rng.random() < 0.55:
     expr = gen_gen(rng, env, depth, True)
-    idxs = everyone if npop <= 6 or rng.random() < 0.3 else sorted(
+    # (DNA construction costs ~2 ms per node: generators get <= 6 parents)
+    idxs = everyone if npop <= 6 else sorted(
         rng.sample(everyone, rng.randint(2, 6)))
   else:
     expr = gen_sel(rng, env, depth, True)
